@@ -41,6 +41,10 @@ theorem parseSettingsFrame_rest_le (l : Nat) (input : Bytes) :
     · simp
     · split <;> simp
 
+theorem truncated_snd (x : Except Err Frame × Bytes) : (truncated x).2 = x.2 := by
+  unfold truncated
+  split <;> rfl
+
 /-- whatever `ParseNext` returns, it never "un-reads": the rest is a suffix no longer than the input -/
 theorem parseNext_rest_le (fuel : Nat) (input : Bytes) :
     (parseNext fuel input).2.length ≤ input.length := by
@@ -61,7 +65,8 @@ theorem parseNext_rest_le (fuel : Nat) (input : Bytes) :
         · split
           · simp; omega
           · split
-            · have := parseSettingsFrame_rest_le l r2; omega
+            · have := parseSettingsFrame_rest_le l r2
+              rw [truncated_snd]; omega
             · split
               · simp; omega
               · split
